@@ -321,6 +321,19 @@ let register (reg : string -> (Sx.t list -> Sx.t) -> unit) : unit =
         wr_bool (Oidc.lib_parse_ok claims && (rd_bool skip || Oidc.check_nonce (fun _ -> h) (rd_str raw) claims))
       | _ -> raise (Bad "nonce_ok arity"));
   (* ---- Upstream ---- *)
+  (* the Location header http.Redirect sets for a target beginning with a single "/" *)
+  reg "redirect_location" (function
+      | [ok; r] -> wr_str (GoPath.location_header (rd_bool ok) (rd_str r))
+      | _ -> raise (Bad "redirect_location arity"));
+  (* a sign-out request racing an ordinary request: (is a session stored at the end, was the ordinary request served) *)
+  reg "signout_race" (function
+      | [answers; sched] ->
+        let ans = Array.of_list (rd_list rd_bool answers) in
+        let f k = (let i = int_of_nat k in if i < Array.length ans then ans.(i) else true) in
+        let s = SignOutRace.run f SignOutRace.init (rd_list rd_bool sched) in
+        let served = (match s.SignOutRace.p_req with SignOutRace.PDone (SignOutRace.Served _) -> true | _ -> false) in
+        L [wr_bool (s.SignOutRace.store <> None); wr_bool served]
+      | _ -> raise (Bad "signout_race arity"));
   reg "upstream_route" (function
       | [ups; mt; mpath; upath; probe] ->
         let l = rd_list (function
